@@ -77,6 +77,11 @@ UnLayer(fam, S) ==
          \cup {<<"collect", r, "vec">> : r \in Reps(S, {<<0, Inf>>})}
          \cup {<<"collect", <<"cfgrep", <<"rep", a, 0, Inf>>>>, "vec">> : a \in {x \in S : ~CanEmpty(x)}}
          \cup {<<"run", <<"cfgrep", <<"rep", a, 0, Inf>>>>>> : a \in {x \in S : ~CanEmpty(x)}}
+    [] fam \in {"spn", "spng"} ->
+         \* every node can be wrapped in a span / slice capture (to_slice only where the kind has slices)
+         Un(S, IF fam = "spn" THEN {"tospan", "toslice", "mw", "ornot", "rewind"} ELSE {"tospan", "mw", "ornot", "rewind"})
+         \cup {<<"collect", r, "vec">> : r \in Reps(S, {<<0, Inf>>})}
+         \cup {<<"validate", a, "1", "F">> : a \in S} \cup UnP(S, "trymap", {"F"})
     [] fam = "rep" ->
          {<<"collect", r, k>> : r \in Reps(S, Bounds), k \in {"vec"}}
          \cup {<<"run", r>> : r \in Reps(S, Bounds)}
@@ -87,6 +92,10 @@ BinLayer(fam, S1, S2) ==
                       \cup {<<"choice", <<a, b>>>> : a \in S1, b \in S2} \cup {<<"choicev", <<a, b>>>> : a \in S1, b \in S2}
     [] fam = "emit" -> Bin(S1, S2, {"then", "or", "andis"})
     [] fam = "err" -> Bin(S1, S2, {"then", "or", "andis"}) \cup {<<"choicev", <<a, b>>>> : a \in S1, b \in S2}
+    [] fam \in {"spn", "spng"} ->
+         Bin(S1, S2, {"then", "or"})
+         \cup {<<"foldlw", a, <<"rep", b, 0, Inf>>, "g">> : a \in S1, b \in {x \in S2 : ~CanEmpty(x)}}
+         \cup {<<"foldrw", <<"rep", a, 0, Inf>>, b, "g">> : a \in {x \in S1 : ~CanEmpty(x)}, b \in S2}
     [] fam = "rcv" -> Bin(S1, S2, {"then", "or"})
     [] fam = "lbl" -> Bin(S1, S2, {"then", "or"}) \cup {<<"choicev", <<a, b>>>> : a \in S1, b \in S2}
     [] fam = "memo" -> Bin(S1, S2, {"then", "or", "andis"})
@@ -103,6 +112,7 @@ LeavesOf(fam) ==
                         <<"validate", <<"empty">>, "0", "F">>}      \* emits without consuming
     [] fam = "err" -> {J("a"), J("b"), JJ("a", "b"), <<"any">>, <<"end">>, <<"cust", 1, FALSE>>}
     [] fam = "rep" -> {J("a"), J("b"), J(","), JJ("a", "b"), <<"any">>}
+    [] fam \in {"spn", "spng"} -> {J("a"), JJ("a", "b"), <<"any">>, <<"empty">>}
     [] fam = "rcv" -> {J("a"), J("b"), JJ("a", "b"), <<"any">>}
     [] fam = "lbl" -> {J("a"), J("b"), JJ("a", "b"), <<"any">>, <<"end">>, <<"cust", 1, FALSE>>}
     [] fam = "memo" -> {J("a"), J("b"), JJ("a", "b"), <<"any">>, <<"cust", 1, FALSE>>}
@@ -152,7 +162,7 @@ MCSpec == MCInit /\ [][MCNext]_vars
 ---------------------------------------------------------------------------
 (* Property invariants *)
 
-X == [toks |-> Toks, offs |-> Case.offs]
+X == [toks |-> Toks, offs |-> Case.offs, kind |-> Case.kind]
 KfClean == \A s \in DOMAIN kf : IsOpen(s) \/ kf[s] = "off"
 OpenOn(s) == s \in DOMAIN kf /\ kf[s] = "on"
 (* the failure events that count under the readings chosen in this behaviour *)
@@ -199,9 +209,10 @@ ResultContract ==
 
 (* C06: the primary error of a failed parse is the furthest failure with  *)
 (* merged expectations (grammars without negative lookahead)              *)
-TotalLen == Case.offs[NTok + 1]
-OffTok(o) == IF \E i \in 0..(NTok - 1) : Case.offs[i + 1] = o
-             THEN Toks[(CHOOSE i \in 0..(NTok - 1) : Case.offs[i + 1] = o) + 1] ELSE ""
+TotalLen == IF Gapped THEN 3 * NTok ELSE Case.offs[NTok + 1]
+TokStart(i) == IF Gapped THEN GStart(i) ELSE Case.offs[i + 1]        \* start offset of the token after cursor i
+OffTok(o) == IF \E i \in 0..(NTok - 1) : TokStart(i) = o
+             THEN Toks[(CHOOSE i \in 0..(NTok - 1) : TokStart(i) = o) + 1] ELSE ""
 FurthestFailure ==
   (st.done /\ ~st.panicked /\ ~result.ok /\ KfClean /\ Ety # "empty"
    /\ ~HasOp(G, {"not", "recover", "label", "maperr", "nested"})) =>
@@ -219,6 +230,25 @@ FurthestFailure ==
                \* `found` is the token at the start of the span (user-supplied errors carry no `found`;
                \* Simple and Cheap cannot tell them apart, so the clause applies when none is involved)
                /\ (Ety \in {"rich", "simple"} /\ customs = {}) => e.found = OffTok(e.s)
+
+(* C07: every span / slice captured in the output is well-formed: start <= end, inside the   *)
+(* input; for &str on character boundaries (an offset of some cursor)                          *)
+RECURSIVE SpansIn(_)
+RECURSIVE SpansInSeq(_)
+SpansInSeq(s) == IF s = <<>> THEN {} ELSE SpansIn(Head(s)) \cup SpansInSeq(Tail(s))
+SpansIn(v) ==
+  CASE v[1] \in {"Sp", "Sl"} -> {<<v[2], v[3]>>}
+    [] v[1] = "W" -> {<<v[3], v[4]>>} \cup SpansIn(v[2])
+    [] v[1] = "P" -> SpansIn(v[2]) \cup SpansIn(v[3])
+    [] v[1] \in {"L", "G", "A"} -> SpansInSeq(v[2])
+    [] v[1] = "O" -> SpansIn(v[2])
+    [] v[1] = "M" -> SpansIn(v[3])
+    [] v[1] = "F" -> SpansIn(v[3]) \cup SpansIn(v[4])
+    [] OTHER -> {}
+Boundaries == IF Gapped THEN 0..(3 * NTok) ELSE {Case.offs[i] : i \in DOMAIN Case.offs}
+SpansWellFormed ==
+  (st.done /\ result.ok /\ KfClean) =>
+     \A sp \in SpansIn(result.out) : sp[1] <= sp[2] /\ sp[1] \in Boundaries /\ sp[2] \in Boundaries
 
 (* C20: no "can't fail" unwrap is ever hit, and the machine makes progress *)
 NoPanic == ~st.panicked
@@ -260,6 +290,7 @@ MatchErrs(how, rok, real, model) ==
     [] how = "ifok" -> rok => all
     [] how = "last" -> ~rok => (Len(real) >= 1 /\ Len(model) >= 1
                                /\ LastKey(RErr(real[Len(real)])) = LastKey(model[Len(model)]))
+    [] how = "spans" -> Len(real) = Len(model) /\ \A i \in DOMAIN real : real[i].s = model[i].s /\ real[i].e = model[i].e
     [] how = "none" -> TRUE
 MatchObs(how, real, model) ==
   LET n == CASE how = "none" -> 0 [] how = "ext" -> 2 [] how = "insp" -> 3 [] how = "all" -> 4 IN
